@@ -88,7 +88,7 @@ PROPS = {
               '300 inconsistent or bus-error variants per typed kind placed between valid messages; seeded random frames (0..6 messages, 15% inconsistent, 15% bus error) each also cut, padded and repeated. '
               'Non-trivial = a decode that returned >= 1 packet; distinct = distinct hash of (message type, per message (kind, class), variant, validity pattern, packet count).'),
         assumptions=COMMON_ASSUME,
-        floors=dict(quick={'distinct_nontrivial': 5000, 'cut_points': 3000, 'messages_expected_invalid': 5000, 'feat:c04_kinds': 12, 'feat:c04_invalid_kinds': 7, 'feat:c04_inner_length_kinds': 7, 'inner_length_field_values': 5000},
+        floors=dict(quick={'distinct_nontrivial': 5000, 'cut_points': 3000, 'messages_expected_invalid': 5000, 'feat:c04_kinds': 12, 'feat:c04_invalid_kinds': 7, 'feat:c04_inner_length_kinds': 7, 'inner_length_field_values': 5000, 'frames_longer_than_64KiB': 288},
                     thorough={'distinct_nontrivial': 50000, 'cut_points': 3000, 'feat:c04_kinds': 12}),
     ),
     'C05': dict(
